@@ -302,14 +302,14 @@ package oj
 //@   requires PRel(p, spec.Run(qi, S, base), base, base)
 //@   requires [own] POwn(p, buf)
 //@   modifies everything
-//@   ensures [C01 C09 sim] result == nil && !last ==> PRel(p, spec.Run(qi, S, base+len(buf)), base+len(buf), base) && POwn(p, buf)
+//@   ensures [C01 C03 C09 sim] result == nil && !last ==> PRel(p, spec.Run(qi, S, base+len(buf)), base+len(buf), base) && POwn(p, buf)
 //@   ensures [C01 accept] result == nil && last ==> spec.AcceptEOF(spec.Run(qi, S, base+len(buf)))
 //@   ensures [C07 maps] PMaps(p)
 //@   ensures [C06 noff] result == nil ==> -1 - base <= p.noff && p.noff < len(buf)
 //@   ensures [C01 C09 reject] result != nil ==> typeis(result, ParseError, ptr) && VErr(as(result, ParseError), as(result, ParseError).Column + p.noff, qi, S, base, len(buf), last)
 //@   loop 0
 //@     invariant [C01 C06 C09 bounds] 0 <= off && off <= len(buf) && depth == len(p.starts)
-//@     invariant [C01 C09 sim] PRel(p, spec.Run(qi, S, base+off), base+off, base)
+//@     invariant [C01 C03 C09 sim] PRel(p, spec.Run(qi, S, base+off), base+off, base)
 //@     invariant [C07 own] POwn(p, buf)
 //@     variant len(buf) - off
 //@     split spec.Run(qi, S, base+off).Ph in spec.DocStart, spec.DocEnd, spec.ArrFirst, spec.ArrNext, spec.ObjFirst, spec.ObjKey, spec.ObjColon,
@@ -325,8 +325,8 @@ package oj
 //@     invariant $k >= 0 ==> i == $k && b == $s[$k]
 //@     invariant $k == -1 ==> i == i0 && b == b0
 //@     invariant $k >= 0 ==> spaceMap[b] == skipChar
-//@     invariant [C01 C09 sim] EqButOff(spec.Run(qi, S, base+o1+$k+1), R1) && spec.Run(qi, S, base+o1+$k+1).Off == base+o1+$k+1
-//@     invariant [C01 C09 sim] $k >= 0 ==> EqButOff(spec.Run(qi, S, base+o1+$k), R1) && spec.Run(qi, S, base+o1+$k).Off == base+o1+$k
+//@     invariant [C01 C03 C09 sim] EqButOff(spec.Run(qi, S, base+o1+$k+1), R1) && spec.Run(qi, S, base+o1+$k+1).Off == base+o1+$k+1
+//@     invariant [C01 C03 C09 sim] $k >= 0 ==> EqButOff(spec.Run(qi, S, base+o1+$k), R1) && spec.Run(qi, S, base+o1+$k).Off == base+o1+$k
 //@     use spec.Run.unfold(qi, S, base+o1+$k+1)
 //@   loop 2
 //@     let o1 = off + 1
@@ -336,8 +336,8 @@ package oj
 //@     invariant $k >= 0 ==> i == $k && b == $s[$k]
 //@     invariant $k == -1 ==> i == i0 && b == b0
 //@     invariant $k >= 0 ==> stringMap[b] == strOk
-//@     invariant [C01 C09 sim] EqButOffSL(spec.Run(qi, S, base+o1+$k+1), R1) && spec.Run(qi, S, base+o1+$k+1).Off == base+o1+$k+1 && spec.Run(qi, S, base+o1+$k+1).SLen == R1.SLen + $k + 1
-//@     invariant [C01 C09 sim] $k >= 0 ==> EqButOffSL(spec.Run(qi, S, base+o1+$k), R1) && spec.Run(qi, S, base+o1+$k).Off == base+o1+$k && spec.Run(qi, S, base+o1+$k).SLen == R1.SLen + $k
+//@     invariant [C01 C03 C09 sim] EqButOffSL(spec.Run(qi, S, base+o1+$k+1), R1) && spec.Run(qi, S, base+o1+$k+1).Off == base+o1+$k+1 && spec.Run(qi, S, base+o1+$k+1).SLen == R1.SLen + $k + 1
+//@     invariant [C01 C03 C09 sim] $k >= 0 ==> EqButOffSL(spec.Run(qi, S, base+o1+$k), R1) && spec.Run(qi, S, base+o1+$k).Off == base+o1+$k && spec.Run(qi, S, base+o1+$k).SLen == R1.SLen + $k
 //@     use spec.Run.unfold(qi, S, base+o1+$k+1)
 //@   loop 3
 //@     let o1 = off + 1
@@ -347,8 +347,8 @@ package oj
 //@     invariant $k >= 0 ==> i == $k && b == $s[$k]
 //@     invariant $k == -1 ==> i == i0 && b == b0
 //@     invariant $k >= 0 ==> stringMap[b] == strOk
-//@     invariant [C01 C09 sim] EqButOffSL(spec.Run(qi, S, base+o1+$k+1), R1) && spec.Run(qi, S, base+o1+$k+1).Off == base+o1+$k+1 && spec.Run(qi, S, base+o1+$k+1).SLen == R1.SLen + $k + 1
-//@     invariant [C01 C09 sim] $k >= 0 ==> EqButOffSL(spec.Run(qi, S, base+o1+$k), R1) && spec.Run(qi, S, base+o1+$k).Off == base+o1+$k && spec.Run(qi, S, base+o1+$k).SLen == R1.SLen + $k
+//@     invariant [C01 C03 C09 sim] EqButOffSL(spec.Run(qi, S, base+o1+$k+1), R1) && spec.Run(qi, S, base+o1+$k+1).Off == base+o1+$k+1 && spec.Run(qi, S, base+o1+$k+1).SLen == R1.SLen + $k + 1
+//@     invariant [C01 C03 C09 sim] $k >= 0 ==> EqButOffSL(spec.Run(qi, S, base+o1+$k), R1) && spec.Run(qi, S, base+o1+$k).Off == base+o1+$k && spec.Run(qi, S, base+o1+$k).SLen == R1.SLen + $k
 //@     use spec.Run.unfold(qi, S, base+o1+$k+1)
 //@   loop 4
 //@     invariant true
@@ -361,7 +361,7 @@ package oj
 //@     invariant $k == -1 ==> i == i0 && b == b0
 //@     invariant $k >= 0 ==> digitMap[b] == numDigit
 //@     invariant [C02 inv] gen.NumInv(p.num) && len(p.num.BigBuf) == 0 && arrid(p.num.BigBuf) != arrid(buf)
-//@     invariant [C01 C09 sim] EqButOff(spec.Run(qi, S, base+o1+$k+1), R1) && spec.Run(qi, S, base+o1+$k+1).Off == base+o1+$k+1
+//@     invariant [C01 C03 C09 sim] EqButOff(spec.Run(qi, S, base+o1+$k+1), R1) && spec.Run(qi, S, base+o1+$k+1).Off == base+o1+$k+1
 //@     use spec.Run.unfold(qi, S, base+o1+$k+1)
 //@   loop 6
 //@     let o1 = off + 1
@@ -372,8 +372,8 @@ package oj
 //@     invariant $k == -1 ==> i == i0 && b == b0
 //@     invariant $k >= 0 ==> digitMap[b] == numDigit
 //@     invariant [C02 inv] gen.NumInv(p.num) && len(p.num.BigBuf) == 0 && arrid(p.num.BigBuf) != arrid(buf)
-//@     invariant [C01 C09 sim] $k >= 0 ==> spec.Run(qi, S, base+o1+$k+1).Ph == spec.NumFrac && EqButOffPh(spec.Run(qi, S, base+o1+$k+1), R1)
-//@     invariant [C01 C09 sim] $k >= 0 ==> spec.Run(qi, S, base+o1+$k+1).Off == base+o1+$k+1
+//@     invariant [C01 C03 C09 sim] $k >= 0 ==> spec.Run(qi, S, base+o1+$k+1).Ph == spec.NumFrac && EqButOffPh(spec.Run(qi, S, base+o1+$k+1), R1)
+//@     invariant [C01 C03 C09 sim] $k >= 0 ==> spec.Run(qi, S, base+o1+$k+1).Off == base+o1+$k+1
 //@     use spec.Run.unfold(qi, S, base+o1+$k+1)
 //@   loop 7
 //@     let o1 = off + 1
@@ -383,8 +383,8 @@ package oj
 //@     invariant $k >= 0 ==> i == $k && b == $s[$k]
 //@     invariant $k == -1 ==> i == i0 && b == b0
 //@     invariant $k >= 0 ==> spaceMap[b] == skipChar
-//@     invariant [C01 C09 sim] EqButOff(spec.Run(qi, S, base+o1+$k+1), R1) && spec.Run(qi, S, base+o1+$k+1).Off == base+o1+$k+1
-//@     invariant [C01 C09 sim] $k >= 0 ==> EqButOff(spec.Run(qi, S, base+o1+$k), R1) && spec.Run(qi, S, base+o1+$k).Off == base+o1+$k
+//@     invariant [C01 C03 C09 sim] EqButOff(spec.Run(qi, S, base+o1+$k+1), R1) && spec.Run(qi, S, base+o1+$k+1).Off == base+o1+$k+1
+//@     invariant [C01 C03 C09 sim] $k >= 0 ==> EqButOff(spec.Run(qi, S, base+o1+$k), R1) && spec.Run(qi, S, base+o1+$k).Off == base+o1+$k
 //@     use spec.Run.unfold(qi, S, base+o1+$k+1)
 
 // ---------------------------------------------------------------------------
@@ -511,14 +511,14 @@ package oj
 //@   requires TRel(t, spec.Run(qi, S, base), base, base)
 //@   requires [own] TOwn(t, buf)
 //@   modifies everything
-//@   ensures [C01 C09 sim] result == nil && !last ==> TRel(t, spec.Run(qi, S, base+len(buf)), base+len(buf), base) && TOwn(t, buf)
+//@   ensures [C01 C03 C09 sim] result == nil && !last ==> TRel(t, spec.Run(qi, S, base+len(buf)), base+len(buf), base) && TOwn(t, buf)
 //@   ensures [C07 frame] t.OnlyOne == old(t.OnlyOne)
 //@   ensures [C01 accept] result == nil && last ==> spec.AcceptEOF(spec.Run(qi, S, base+len(buf)))
 //@   ensures [C06 noff] result == nil ==> -1 - base <= t.noff && t.noff < len(buf)
 //@   ensures [C01 C09 reject] result != nil ==> typeis(result, ParseError, ptr) && VErr(as(result, ParseError), as(result, ParseError).Column + t.noff, qi, S, base, len(buf), last)
 //@   loop 0
 //@     invariant [C01 C06 C09 bounds] 0 <= off && off <= len(buf) && depth == len(t.starts)
-//@     invariant [C01 C09 sim] TRel(t, spec.Run(qi, S, base+off), base+off, base)
+//@     invariant [C01 C03 C09 sim] TRel(t, spec.Run(qi, S, base+off), base+off, base)
 //@     invariant [C07 frame] t.OnlyOne == old(t.OnlyOne)
 //@     invariant [C07 own] TOwn(t, buf)
 //@     variant len(buf) - off
@@ -535,8 +535,8 @@ package oj
 //@     invariant $k >= 0 ==> i == $k && b == $s[$k]
 //@     invariant $k == -1 ==> i == i0 && b == b0
 //@     invariant $k >= 0 ==> spaceMap[b] == skipChar
-//@     invariant [C01 C09 sim] EqButOff(spec.Run(qi, S, base+o1+$k+1), R1) && spec.Run(qi, S, base+o1+$k+1).Off == base+o1+$k+1
-//@     invariant [C01 C09 sim] $k >= 0 ==> EqButOff(spec.Run(qi, S, base+o1+$k), R1) && spec.Run(qi, S, base+o1+$k).Off == base+o1+$k
+//@     invariant [C01 C03 C09 sim] EqButOff(spec.Run(qi, S, base+o1+$k+1), R1) && spec.Run(qi, S, base+o1+$k+1).Off == base+o1+$k+1
+//@     invariant [C01 C03 C09 sim] $k >= 0 ==> EqButOff(spec.Run(qi, S, base+o1+$k), R1) && spec.Run(qi, S, base+o1+$k).Off == base+o1+$k
 //@     use spec.Run.unfold(qi, S, base+o1+$k+1)
 //@   loop 2
 //@     let o1 = off + 1
@@ -546,8 +546,8 @@ package oj
 //@     invariant $k >= 0 ==> i == $k && b == $s[$k]
 //@     invariant $k == -1 ==> i == i0 && b == b0
 //@     invariant $k >= 0 ==> stringMap[b] == strOk
-//@     invariant [C01 C09 sim] EqButOffSL(spec.Run(qi, S, base+o1+$k+1), R1) && spec.Run(qi, S, base+o1+$k+1).Off == base+o1+$k+1 && spec.Run(qi, S, base+o1+$k+1).SLen == R1.SLen + $k + 1
-//@     invariant [C01 C09 sim] $k >= 0 ==> EqButOffSL(spec.Run(qi, S, base+o1+$k), R1) && spec.Run(qi, S, base+o1+$k).Off == base+o1+$k && spec.Run(qi, S, base+o1+$k).SLen == R1.SLen + $k
+//@     invariant [C01 C03 C09 sim] EqButOffSL(spec.Run(qi, S, base+o1+$k+1), R1) && spec.Run(qi, S, base+o1+$k+1).Off == base+o1+$k+1 && spec.Run(qi, S, base+o1+$k+1).SLen == R1.SLen + $k + 1
+//@     invariant [C01 C03 C09 sim] $k >= 0 ==> EqButOffSL(spec.Run(qi, S, base+o1+$k), R1) && spec.Run(qi, S, base+o1+$k).Off == base+o1+$k && spec.Run(qi, S, base+o1+$k).SLen == R1.SLen + $k
 //@     use spec.Run.unfold(qi, S, base+o1+$k+1)
 //@   loop 3
 //@     let o1 = off + 1
@@ -557,8 +557,8 @@ package oj
 //@     invariant $k >= 0 ==> i == $k && b == $s[$k]
 //@     invariant $k == -1 ==> i == i0 && b == b0
 //@     invariant $k >= 0 ==> stringMap[b] == strOk
-//@     invariant [C01 C09 sim] EqButOffSL(spec.Run(qi, S, base+o1+$k+1), R1) && spec.Run(qi, S, base+o1+$k+1).Off == base+o1+$k+1 && spec.Run(qi, S, base+o1+$k+1).SLen == R1.SLen + $k + 1
-//@     invariant [C01 C09 sim] $k >= 0 ==> EqButOffSL(spec.Run(qi, S, base+o1+$k), R1) && spec.Run(qi, S, base+o1+$k).Off == base+o1+$k && spec.Run(qi, S, base+o1+$k).SLen == R1.SLen + $k
+//@     invariant [C01 C03 C09 sim] EqButOffSL(spec.Run(qi, S, base+o1+$k+1), R1) && spec.Run(qi, S, base+o1+$k+1).Off == base+o1+$k+1 && spec.Run(qi, S, base+o1+$k+1).SLen == R1.SLen + $k + 1
+//@     invariant [C01 C03 C09 sim] $k >= 0 ==> EqButOffSL(spec.Run(qi, S, base+o1+$k), R1) && spec.Run(qi, S, base+o1+$k).Off == base+o1+$k && spec.Run(qi, S, base+o1+$k).SLen == R1.SLen + $k
 //@     use spec.Run.unfold(qi, S, base+o1+$k+1)
 //@   loop 4
 //@     let o1 = off + 1
@@ -569,7 +569,7 @@ package oj
 //@     invariant $k == -1 ==> i == i0 && b == b0
 //@     invariant $k >= 0 ==> digitMap[b] == numDigit
 //@     invariant [C02 inv] gen.NumInv(t.num) && len(t.num.BigBuf) == 0 && arrid(t.num.BigBuf) != arrid(buf)
-//@     invariant [C01 C09 sim] EqButOff(spec.Run(qi, S, base+o1+$k+1), R1) && spec.Run(qi, S, base+o1+$k+1).Off == base+o1+$k+1
+//@     invariant [C01 C03 C09 sim] EqButOff(spec.Run(qi, S, base+o1+$k+1), R1) && spec.Run(qi, S, base+o1+$k+1).Off == base+o1+$k+1
 //@     use spec.Run.unfold(qi, S, base+o1+$k+1)
 //@   loop 5
 //@     let o1 = off + 1
@@ -580,8 +580,8 @@ package oj
 //@     invariant $k == -1 ==> i == i0 && b == b0
 //@     invariant $k >= 0 ==> digitMap[b] == numDigit
 //@     invariant [C02 inv] gen.NumInv(t.num) && len(t.num.BigBuf) == 0 && arrid(t.num.BigBuf) != arrid(buf)
-//@     invariant [C01 C09 sim] $k >= 0 ==> spec.Run(qi, S, base+o1+$k+1).Ph == spec.NumFrac && EqButOffPh(spec.Run(qi, S, base+o1+$k+1), R1)
-//@     invariant [C01 C09 sim] $k >= 0 ==> spec.Run(qi, S, base+o1+$k+1).Off == base+o1+$k+1
+//@     invariant [C01 C03 C09 sim] $k >= 0 ==> spec.Run(qi, S, base+o1+$k+1).Ph == spec.NumFrac && EqButOffPh(spec.Run(qi, S, base+o1+$k+1), R1)
+//@     invariant [C01 C03 C09 sim] $k >= 0 ==> spec.Run(qi, S, base+o1+$k+1).Off == base+o1+$k+1
 //@     use spec.Run.unfold(qi, S, base+o1+$k+1)
 //@   loop 6
 //@     let o1 = off + 1
@@ -591,8 +591,8 @@ package oj
 //@     invariant $k >= 0 ==> i == $k && b == $s[$k]
 //@     invariant $k == -1 ==> i == i0 && b == b0
 //@     invariant $k >= 0 ==> spaceMap[b] == skipChar
-//@     invariant [C01 C09 sim] EqButOff(spec.Run(qi, S, base+o1+$k+1), R1) && spec.Run(qi, S, base+o1+$k+1).Off == base+o1+$k+1
-//@     invariant [C01 C09 sim] $k >= 0 ==> EqButOff(spec.Run(qi, S, base+o1+$k), R1) && spec.Run(qi, S, base+o1+$k).Off == base+o1+$k
+//@     invariant [C01 C03 C09 sim] EqButOff(spec.Run(qi, S, base+o1+$k+1), R1) && spec.Run(qi, S, base+o1+$k+1).Off == base+o1+$k+1
+//@     invariant [C01 C03 C09 sim] $k >= 0 ==> EqButOff(spec.Run(qi, S, base+o1+$k), R1) && spec.Run(qi, S, base+o1+$k).Off == base+o1+$k
 //@     use spec.Run.unfold(qi, S, base+o1+$k+1)
 
 
